@@ -90,3 +90,20 @@ func MintHS(secret []byte, endpoints []string, exp time.Time) string {
 	}
 	return s
 }
+
+// MintRS signs an RS256 token with the test RSA key (kid rsa1, as in the JWK set
+// written by writeJWKS).
+func MintRS(endpoints []string, exp time.Time) string {
+	c := Claims{}
+	c.Piko.Endpoints = endpoints
+	if !exp.IsZero() {
+		c.ExpiresAt = jwt.NewNumericDate(exp)
+	}
+	tk := jwt.NewWithClaims(jwt.SigningMethodRS256, c)
+	tk.Header["kid"] = "rsa1"
+	s, err := tk.SignedString(TestKeys().RSA)
+	if err != nil {
+		panic(err)
+	}
+	return s
+}
